@@ -46,7 +46,13 @@ def denvEntries : DEnv → DExp
 
 /-- Go `makeDisabledExp(disable, inner)`.  The Go code skips the wrapper when `inner` is already
 disabled by the SAME control object (pointer comparison); two resolutions of the same reference
-are different objects, so the model always wraps. -/
+are different objects, so the model always wraps.  KNOWN APPROXIMATION (seed-5 sweep): the same
+object DOES arrive twice when a control flows unchanged through pipeline inputs (`flag = self.flag`,
+`* = self`) to a call that is disabled on `self.flag` inside a call disabled on the same `self.flag`:
+the Go code then neither appends the control a second time nor wraps the node's output (`makeDisabled`
+wraps only the controls this node added to its parent's list).  The model has no object identity; the
+harness compares such graphs modulo duplicate controls (counted: `graph-tie:equal-modulo-control-object-
+identity`; pin: corpus/C19/graph-disabled-control-inherited-through-input.mro). -/
 def makeDis (d inner : DExp) : DExp :=
   if isNullD inner then inner else
   match d with
@@ -165,7 +171,7 @@ def resolveBindsD (ti : TypeInfo) (tys : Members) (f : Ref → DExp) (bs : List 
 
 /-- Go `resolveDisableExp`: a reference is appended (the Go code skips it only when the very same
 object is already in the list - a pointer comparison that separately resolved references never
-satisfy), `true`
+satisfy, but a control inherited through pipeline inputs does: see `makeDis`), `true`
 replaces everything, `false` adds nothing, a value that is itself disabled by a
 control already in the list is looked through. -/
 def resolveDisableExp (disable : List DExp) : DExp → List DExp
